@@ -405,6 +405,12 @@ def rule_d(ck, u, eng):
     ck.function('sx_parse_list')
     ps = eng3.paths('sx_parse_list')
     bad = None
+    if not any(p.calls('sx_parse_list') for p in ps) and any(p.loops for p in ps):
+        # the rule follows the nodes of a list built by recursion on the rest (element, rest, cons).  A list collected in a
+        # loop through a tail pointer stores its nodes through an alias this rule does not follow: it says so
+        ck.broken('C20.d', 'sx_parse_list', cast.where(u.fn('sx_parse_list')),
+                  'the list is collected in a loop (no recursion on the rest): the nodes are linked through a tail pointer, an alias the ownership rule does not follow')
+        ps = []
     for p in ps:
         car = p.calls('sx_parse_')
         cdr = p.calls('sx_parse_list')
